@@ -260,7 +260,8 @@ def _s3b_delegating_operators(program, res):
             if copies:
                 before = m.node.body[:m.node.body.index(copies[0])]
                 refuses = any(isinstance(st, ast.If) and "Iterable" in unparse(st.test) and st.body and isinstance(st.body[-1], (ast.Return, ast.Raise)) for st in before) \
-                    or any(isinstance(st, ast.Assert) and "Iterable" in unparse(st.test) for st in before)
+                    or any(isinstance(st, ast.Assert) and "Iterable" in unparse(st.test) for st in before) \
+                    or any(isinstance(c, ast.Call) and dotted_name(c.func) == "iter" and c.args and unparse(c.args[0]) == other for st in before for c in ast.walk(st))
                 if refuses:
                     res.ok("C24-S3", f"{op} refuses an operand that is not iterable before copying it")
                 else:
@@ -268,6 +269,29 @@ def _s3b_delegating_operators(program, res):
                                 f"`s ^ None` answers with a copy of s where a plain set and the inherited operator raise TypeError", copies[0])
         else:
             res.fail_at("C24-S3", m, f"operator-not-ordered-by-operands:{op}", f"OrderedSet.{op} does not build its result by iterating self and then the other operand")
+
+
+def _s3c_named_aliases(program, res):
+    """`symmetric_difference = property(lambda self: self.__xor__)` and its siblings hand out the operator method itself: a `return NotImplemented` inside such an
+    operator — the protocol answer of a binary operator — becomes the *result* of the named method (a truthy singleton, no error)"""
+    cls = program.cls("OrderedSet", "OrderedSet")
+    aliased = {}
+    for st in cls.node.body:
+        if isinstance(st, ast.Assign) and isinstance(st.value, ast.Call) and dotted_name(st.value.func) == "property" and st.value.args \
+                and isinstance(st.value.args[0], ast.Lambda) and isinstance(st.value.args[0].body, ast.Attribute):
+            aliased.setdefault(st.value.args[0].body.attr, []).append(unparse(st.targets[0]))
+    n = 0
+    for op, names in sorted(aliased.items()):
+        m = cls.methods.get(op)
+        if m is None:
+            continue  # inherited: collections.abc answers NotImplemented only through the operator protocol of a *non-iterable*, which the mixins turn into TypeError themselves
+        n += 1
+        ni = [r for r in ast.walk(m.node) if isinstance(r, ast.Return) and isinstance(r.value, ast.Name) and r.value.id == "NotImplemented"]
+        if ni:
+            res.fail_at("C24-S3", m, f"named-method-returns-NotImplemented:{op}",
+                        f"OrderedSet.{op} returns NotImplemented, and `{names[0]}` is that very method: s.{names[0]}(3) hands back the NotImplemented singleton instead of raising", ni[0])
+        else:
+            res.ok("C24-S3", f"{op} (also reachable as {', '.join(names)}) raises for an operand it can not take")
 
 
 def _s4_relations(program, res):
@@ -301,6 +325,7 @@ def run(program, res, tier):
     res.rule("C24-S4", "subset / superset relations test membership in a materialised set")
     _s3_inherited_operators(program, res)
     _s3b_delegating_operators(program, res)
+    _s3c_named_aliases(program, res)
     _s4_relations(program, res)
     _check_filter_helper(program, res, "ordered_intersect", ast.In)
     _check_filter_helper(program, res, "ordered_diff", ast.NotIn)
